@@ -92,7 +92,10 @@ def handleFoc (j : Json) : Except String Json := do
       | .error .valueError => return Json.mkObj [("err", "ValueError")]
       | .error .ambiguous => return Json.mkObj [("err", "AmbiguousTreeError")]
       | .error (.eval e) => return Json.mkObj [("err_eval", evalErrToJson e)]
-      | .error (.assertion s) => return Json.mkObj [("err", "AssertionError"), ("site", Json.str s)]
+      | .error (.assertion s) =>
+        -- the site `isinstance(node, TagNode)` (a path that needs a second root) raises InvalidOperation in the code
+        return Json.mkObj [("err", if s == "isinstance(node, TagNode)" then "InvalidOperation" else "AssertionError"),
+                           ("site", Json.str s)]
   | _, _ => return Json.mkObj [("nsmap_err", Json.str "ValueError")]
 
 end DelbDriver
